@@ -108,5 +108,6 @@ func TakeRuntimeContext() *RuntimeContext {
 
 func ReleaseRuntimeContext(ctx *RuntimeContext) {
 	verifSlotRelease(ctx)
+	verifPoisonCtx(ctx)
 	runtimeContextPool.Put(ctx)
 }
